@@ -6,6 +6,7 @@ CONSTANTS
   ChanSeqs <- MC_ChanSeqs
   Subs = {1, 2}
   MaxEv = 3
+  AbandonSubs = {1, 2}
   QMaxes = {0, 1, 2}
 INVARIANT InOrder
 INVARIANT OwnChannelsOnly
